@@ -527,6 +527,12 @@ def run_binary(chk, nfiles, rows):
         for ri in range(rows):
             payee = chk.rng.choice(SAFE_PAYEES)
             cat = chk.rng.choice(SAFE_CATS)
+            # matchers are case-insensitive on every field (extract::regex_matcher): statements spell the same text in
+            # another letter case now and then (ASCII only, where Python's and the regex crate's folding agree)
+            if chk.rng.random() < 0.3 and payee.isascii():
+                payee = chk.rng.choice([payee.upper(), payee.lower(), payee.swapcase()])
+            if chk.rng.random() < 0.3 and cat.isascii():
+                cat = chk.rng.choice([cat.upper(), cat.lower(), cat.swapcase()])
             amount = chk.rng.choice([1, -1]) * chk.rng.randint(1, 99999)
             recs.append((payee, cat, amount))
             csv_lines.append("2024-01-%02d,%s,%s,%d.%02d" % (ri % 28 + 1, payee, cat, amount // 100 if amount > 0 else -((-amount) // 100),
